@@ -13,7 +13,7 @@ LIES = {"C01": ("verdict", "facts"), "C02": ("verdict", "table"), "C03": ("verdi
 
 # further phases with drivers of their own
 MORE = [("C03", "answer", "fs-histories"), ("C15", "proj", "overlapping-stores"), ("C14", "proj", "schedules-restore"),
-        ("C17", "class", "overlap"), ("X03", "source", "policyfiles"), ("X04", "path", "roots"), ("X05", "value", "codecs"), ("X06", "listing", "remote-histories")]
+        ("C04", "verdict", "shared-verifier"), ("C17", "class", "overlap"), ("X07", "state", "configfile"), ("X03", "source", "policyfiles"), ("X04", "path", "roots"), ("X05", "value", "codecs"), ("X06", "listing", "remote-histories")]
 
 
 def main(tier, seed):
